@@ -87,6 +87,7 @@ structure Cfg where
   groupInfoIds : Bool     -- groupInfo: empty id list is an error (guards the modulo in choseSubmitter)
   byte32Len    : Bool     -- byte32 length test
   crRand       : Bool     -- handleCR: non-positive seed replaced before rand.Int
+  parseDepth   : Bool     -- dataParse (14409e8): a document nested deeper than maxDocumentDepth is refused before the recursive evaluators run
   bootReq      : Bool     -- getBootIps (d508404): a bootstrap URL that does not parse is answered with no addresses
   secNil       : Bool     -- pdkg.GetShareSecurity: a group whose key generation has not finished has no share (`dks != nil`)
   feCast       : Bool     -- onchain.firstEvent: `event.(*LogCommon)` comma-ok
@@ -114,7 +115,7 @@ def Cfg.all : Cfg :=
     respsDkgNil := true, respsCast := true, findPubDkg := true, respNil := true, respVerOk := true, pubKeyLen := true, peerRespNil := true,
     encNil := true, nonceLen := true, secShareNil := true, shareVNil := true, findPubVss := true, aggNil := true,
     toBigLen := true, qloopOk := true, qloopCast := true, rsNil := true, rsMake := true, groupInfoIds := true,
-    byte32Len := true, crRand := true, bootReq := true, secNil := true, feCast := true, evFlow := true, sigIdxLen := true, recoverDedup := true, rcDedup := true, anyNil := true, ridCast := true,
+    byte32Len := true, crRand := true, parseDepth := true, bootReq := true, secNil := true, feCast := true, evFlow := true, sigIdxLen := true, recoverDedup := true, rcDedup := true, anyNil := true, ridCast := true,
     ridLen := true, readSize := true, mdNil := true, dispReplyNil := true, callRemoveNil := true, callIdMatch := true, listenName := true, listenCast := true, lookupName := true }
 
 /-! ### association lists (Go maps) -/
